@@ -1,6 +1,6 @@
 (* C03 property theorems. Statements closed by `exact lemma`, followed by Print Assumptions; Examples show that the
    hypotheses are satisfiable. *)
-From Coq Require Import NArith ZArith List Bool.
+From Coq Require Import NArith ZArith List Bool Lia.
 From OG Require Import C03.Model C03.Proofs.
 Import ListNotations.
 
@@ -20,6 +20,37 @@ Theorem C03_crash_atomic : forall st0 old new univ body k cr,
   recover univ st' = st'.
 Proof. intros st0 old new univ body k cr Hp Hb. exact (crash_atomic_all st0 old new univ Hp body k cr Hb). Qed.
 Print Assumptions C03_crash_atomic.
+
+(* both directories of a measurement: file ids are per directory (ordered directory: even ids, out-of-order directory: odd
+   ids - the harness numbers the files of both directories in one id space). A replacement whose intent log has
+   IsOrder = b names files of directory b only; the theorem above applies to it verbatim, and "every other file untouched"
+   covers the whole other directory (recovery per directory; the loader's purge of .init files runs over both). *)
+Definition dir_id (is_order : bool) (n : N) : N := (2 * n + (if is_order then 0 else 1))%N.
+Theorem dir_ids_disjoint : forall a b, dir_id true a <> dir_id false b.
+Proof. intros a b. unfold dir_id. rewrite N.add_0_r. intro H. apply (f_equal N.even) in H. rewrite N.even_mul, N.add_1_r, N.even_succ, N.odd_mul in H. cbn in H. discriminate. Qed.
+Theorem C03_crash_atomic_both_directories : forall (is_order : bool) st0 old new univ body k cr,
+  let old' := map (dir_id is_order) old in
+  let new' := map (dir_id is_order) new in
+  protocol_pre st0 old' new' univ -> body_okb old' new' body = true ->
+  let steps := [LogCreate; LogWrite old' new'; LogSync] ++ body ++ [LogRemove] in
+  let st' := recover_with_crashes univ cr (run (firstn k steps) st0) in
+  ((forall n, visible st' n = view_old st0 n) \/ (forall n, visible st' n = view_new st0 old' new' n)) /\
+  (forall n, files st' (n, true) = None) /\
+  notfull st' /\
+  recover univ st' = st' /\
+  (forall n, visible st' (dir_id (negb is_order) n) = visible st0 (dir_id (negb is_order) n)).
+Proof.
+  intros is_order st0 old new univ body k cr old' new' Hp Hb steps st'.
+  pose proof (crash_atomic_all st0 old' new' univ Hp body k cr Hb) as [H1 [H2 [H3 H4]]].
+  repeat split; auto.
+  intro n. assert (Hno : ~ In (dir_id (negb is_order) n) old' /\ ~ In (dir_id (negb is_order) n) new').
+  { split; intro Hi; apply in_map_iff in Hi; destruct Hi as [x [E _]]; destruct is_order; cbn [negb] in E;
+      [ | symmetry in E | | symmetry in E]; exact (dir_ids_disjoint _ _ E). }
+  destruct Hno as [Ho Hn]. fold st'.
+  destruct H1 as [H1|H1]; rewrite H1; [reflexivity|].
+  unfold view_new, visible. apply mem_false in Ho, Hn. rewrite Hn, Ho. reflexivity.
+Qed.
+Print Assumptions C03_crash_atomic_both_directories.
 
 (* "contents unchanged": for every reader semantics sem that depends only on the visible data files (names and
    contents) and gives the same answer on the old and on the new file set - which is what compaction / merge
